@@ -1808,8 +1808,9 @@ def run(ctx):
         "shuffle_hyperedges has no Lean model (predicate only); 'no repeated edge' is judged on inputs without repeated edges only; REGIME "
         "cases (70-90 nodes) are predicate only",
         "geometric(p) >= 1 for every draw (checked on every recorded draw, including p = 1e-18, 1-1e-16); np.inf is replayed as 2**40",
-        "open findings (known_findings/C16.json): flag_complex / flag_complex_d2 with tuple or int/str mixed node labels, flag_complex with a numpy "
-        "array `ps`, shuffle_hyperedges repeating edges, node_swap on a network with a node labelled -1 (each with a proposed fix).  (The _index_to_edge_partition defect above 2**53 is fixed in /repo 04eeed5; large indices are still evaluated.)  "
+        "no open finding; fixed in /repo during the second hardening round and kept in corpus/C16: flag_complex / flag_complex_d2 with tuple or "
+        "int/str mixed node labels and flag_complex with a numpy array `ps` (fec8f05), shuffle_hyperedges repeating edges (eb5e027), node_swap on a "
+        "network with a node labelled -1 (90fdbc9), _index_to_edge_partition above 2**53 (04eeed5).  "
         "A flag complex holds the cliques with at least two nodes: a 1-node simplex is reported (singleton-simplex; fixed in /repo 6782803)",
         "every generator call runs under a CPU-time budget (2 s, sunflower 0.3 s; ITIMER_VIRTUAL) and is repeated once with ten times the "
         "budget before an expiry is reported as `nonterminating`",
